@@ -279,6 +279,9 @@ func (b *basicCommonValidator) Validate(data interface{}) (res *Result) {
 	for _, enumValue := range b.Enum {
 		actualType := reflect.TypeOf(enumValue)
 		if actualType == nil { // Safeguard
+			if data == nil {
+				return nil // a null enum value matches a null value
+			}
 			continue
 		}
 
